@@ -406,6 +406,8 @@ def record_build(idx, text, used, w, policy="drop", **kw):
     }
     if st != "ok":
         ev["status"] = type(dm).__name__
+        if isinstance(dm, ValueError) and "incomplete rows" in str(dm):
+            ev["status"] = "ValueError:incomplete_rows"   # the refusal of na_action='error'
         return ev, dm
     views = True
     try:
